@@ -415,7 +415,11 @@ def re_sub(interp, args, kwargs):
     if not is_tok(s):
         if any(is_tok(a) for a in args):
             raise Unsupported("re.sub with token-string pattern")
-        return re.sub(*args, **kwargs)
+        from .interp import has_sym
+
+        if has_sym(list(args)) or has_sym(kwargs):
+            raise Unsupported("call of python function re.sub without model")
+        return interp.call_native(re.sub, args, kwargs)
     if not isinstance(s, TokStr):
         s = TokStr([s])
     src = pattern.pattern if hasattr(pattern, "pattern") else pattern
